@@ -75,7 +75,35 @@ const TABLES: [TableDef; 3] = [
     },
 ];
 
-const STRS: &[&str] = &["alice", "bob", "", "it's", "a b", "x AND y", "50%", "-- no", "Ünï", "NULL", "q\"q", "back\\slash", "a OR b = 1", "(p)"];
+const STRS: &[&str] = &["alice", "bob", "", "it's", "a b", "x AND y", "50%", "-- no", "Ünï", "NULL", "q\"q", "back\\slash", "a OR b = 1", "(p)", "a  b", "a\tb"];
+
+/// Strings that differ only in the white space INSIDE them ("a b" / "a  b" / "a\tb"): a statement
+/// and its twin are different statements although they are equal up to white space.
+fn space_twin(i: u8) -> Option<u8> {
+    let pos = |s: &str| STRS.iter().position(|x| *x == s).map(|p| p as u8);
+    match STRS[i as usize % STRS.len()] {
+        "a b" => pos("a  b"),
+        "a  b" => pos("a\tb"),
+        "a\tb" => pos("a b"),
+        _ => None,
+    }
+}
+
+fn twin_cond(c: &Cond) -> Option<Cond> {
+    match c {
+        Cond::Cmp { col, op, val: Val::Str(i) } => space_twin(*i).map(|j| Cond::Cmp { col: *col, op: *op, val: Val::Str(j) }),
+        Cond::Cmp { .. } => None,
+        Cond::And(a, b) | Cond::Or(a, b) => {
+            let (ta, tb) = (twin_cond(a), twin_cond(b));
+            if ta.is_none() && tb.is_none() {
+                return None;
+            }
+            let (x, y) = (Box::new(ta.unwrap_or_else(|| (**a).clone())), Box::new(tb.unwrap_or_else(|| (**b).clone())));
+            Some(if matches!(c, Cond::And(..)) { Cond::And(x, y) } else { Cond::Or(x, y) })
+        },
+    }
+}
+
 const LABELS: &[&str] = &["person", "city", "Doc"];
 const ETYPES: &[&str] = &["knows", "lives_in", "REL"];
 const PKEYS: &[&str] = &["name", "age", "status", "type", "w"];
@@ -1446,7 +1474,28 @@ fn check_ordered(st: &Step, got: &Out) -> Result<(), (String, String)> {
         } else {
             // undo Debug escaping for the comparison
             let inner = s.trim_start_matches("String(\"").trim_end_matches("\")");
-            K::Str(inner.replace("\\\"", "\"").replace("\\'", "'").replace("\\\\", "\\"))
+            // left to right, every escape Debug produces (\" \' \\ \t \n \r \0 \u{..})
+            let mut out = String::new();
+            let mut it = inner.chars().peekable();
+            while let Some(ch) = it.next() {
+                if ch != '\\' {
+                    out.push(ch);
+                    continue;
+                }
+                match it.next() {
+                    Some('t') => out.push('\t'),
+                    Some('n') => out.push('\n'),
+                    Some('r') => out.push('\r'),
+                    Some('0') => out.push('\0'),
+                    Some('u') => {
+                        let hex: String = it.by_ref().skip(1).take_while(|c| *c != '}').collect();
+                        out.push(u32::from_str_radix(&hex, 16).ok().and_then(char::from_u32).unwrap_or('\u{fffd}'));
+                    },
+                    Some(other) => out.push(other),
+                    None => out.push('\\'),
+                }
+            }
+            K::Str(out)
         }
     };
     let keys_all: Vec<K> = all.iter().filter_map(|r| key(r)).map(|s| parse(&s)).collect();
@@ -1573,7 +1622,20 @@ pub fn check(c: &StmtCase, ctx: &mut CaseCtx) -> Result<(), Fail> {
     let mut diverged = false;
     let mut prologue: Vec<Op> = (0u8..3).map(|t| Op::CreateTable { t, if_not_exists: false, style: c.style.wrapping_add(t) }).collect();
     prologue.extend((0u8..3).map(|label| Op::NodeCreate { label, props: vec![], style: c.style.wrapping_add(label) }));
+    // a SELECT whose condition holds a string with inner white space is followed at once by its
+    // twin (the same statement with "a b" <-> "a  b" <-> "a\tb"): two different statements that a
+    // router may not confuse (e.g. in its query cache)
+    let mut expanded: Vec<Op> = Vec::new();
     for op in prologue.iter().chain(c.setup.iter()).chain(c.ops.iter()) {
+        expanded.push(op.clone());
+        if let Op::Select { t, proj, cond: Some(cd), order, limit, offset, style } = op {
+            if let Some(tw) = twin_cond(cd) {
+                expanded.push(Op::Select { t: *t, proj: proj.clone(), cond: Some(tw), order: *order, limit: *limit, offset: *offset, style: *style });
+                ctx.label("select followed by its white-space twin");
+            }
+        }
+    }
+    for op in expanded.iter() {
         // 1. the text, on the router
         let plan = step(op, &mut w, true);
         let got = out_of(w.router.execute_parsed(&plan.text));
